@@ -63,7 +63,12 @@ def expand_op(tid, op, res):
         for i in range(k):
             if extra & 1 and i == 0:
                 out.append(junk(tid, seed, i))
-            out += EV.lookup_events(tid, w(seed, 10 + i)[0], path_text(seed, i))
+            chunks = EV.lookup_events(tid, w(seed, 10 + i)[0], path_text(seed, i))
+            if extra & 8 and len(chunks) > 1:
+                # an interrupt (or any record of another class) lands between the chunk records of one lookup
+                cut = 1 + w(seed, 60 + i)[0] % (len(chunks) - 1)
+                chunks = chunks[:cut] + [junk(tid, seed, 20 + i)] + chunks[cut:]
+            out += chunks
             if extra & 2:
                 out.append(junk(tid, seed, 5 + i))
         if extra & 4:
